@@ -163,6 +163,7 @@ PROPS = {
             'is_terminal_snippet_clean(t) is true exactly when t is terminal-safe in that sense',
             'ring reader window (src/ring_reader.rs is_utf8_continuation, utf8_expected_len, trim_incomplete_utf8_tail, trim_to_utf8_boundaries_with_line): exactly the leading continuation bytes are dropped (offset advanced by their number, line number unchanged since a continuation byte is never a line feed), only an incomplete last code point is dropped at the end, what remains is a sub-window of the input that neither starts with a continuation byte nor stops inside a code point; total for every byte string',
             'the recent-bytes window itself (unit ring): FixedRingBuffer push / pop / iterate against "the retained bytes, oldest first"; after any sequence of reads and read-aheads the window is the last RING_BUFFER_SIZE bytes read from the source, its first line number has advanced by exactly the lines that ended in front of it - a line ends at LF or at a CR not followed by LF, as the scanner and Location::line count them -, its offset by exactly the bytes that left it, and it ends where reading stopped; get_recent returns a piece of that window whose start line is the line of its first byte and whose offsets bracket it',
+            'from_reader_with_options feeds the recent-bytes window with the DECODED text that locations refer to (statement fragment from_reader_with_options#ring: the decoder is put in front of the ring; F30), against an assumed one-line contract of the encoding_rs_io builder and of SharedRingReader / SharedRingReaderHandle (what the ring holds is what its inner reader delivers: proved for RingReader in unit ring)',
             'crop_source_window splits lines at LF only in text without a lone CR (F29): has_lone_cr / lone_cr_to_lf are assumed there and checked on their real text by a bounded-only harness in every run (all strings up to 8 characters over a five-symbol alphabet) - bounded, not proved',
             'col_to_byte_offset_in_line: Some(i) iff 1 <= col <= chars+1 and i is exactly the byte offset of that character (unit crop)',
             'line_starts: exactly 0 and the offset after every line feed, in order, all on char boundaries',
